@@ -198,4 +198,24 @@ theorem sum_entries (w : ν → Nat) (m : List (κ × ν)) : ((entries m).map fu
       simp only [List.filterMap_cons, hg, Option.map_some, List.map_cons, List.sum_cons, Option.elim_some]
       rw [ih (fun q' h' => hall q' (by simp [h']))]
 
+
+theorem keys_erase (m : List (κ × ν)) (k : κ) : keys (erase m k) = (keys m).filter fun q => !(q == k) := by
+  unfold erase
+  induction m with
+  | nil => rfl
+  | cons p r ih =>
+    obtain ⟨a, v⟩ := p
+    simp only [List.filter_cons]
+    cases ha : (a == k)
+    · simp only [Bool.not_false, if_true, keys, List.filter_cons, ha, ih]
+      congr 1
+      simp only [List.filter_filter]
+      apply List.filter_congr
+      intro x _
+      exact Bool.and_comm _ _
+    · have e : a = k := by simpa using ha
+      subst e
+      simp only [Bool.not_true, Bool.false_eq_true, if_false, keys, List.filter_cons, beq_self_eq_true, ih]
+      simp only [List.filter_filter, Bool.and_self]
+
 end CocaVerif.GoMap
